@@ -680,23 +680,50 @@ def polynomial_backtracking(p):
                 return True
         return False
 
+    def first_of(items):
+        """bytes a match of the sequence can start with (the items up to and including the first one that cannot be empty)"""
+        m = 0
+        for op, av in items:
+            im = p.item_mask(op, av)
+            if im is not None:
+                m |= im
+            elif op is C.SUBPATTERN:
+                m |= first_of(av[3])
+            elif op is C.BRANCH:
+                for a in av[1]:
+                    m |= first_of(a)
+            elif op in (C.MAX_REPEAT, C.MIN_REPEAT):
+                m |= first_of(av[2])
+            if not nullable(op, av):
+                break
+        return m
+
     def rec(sub, inside_unbounded):
+        # The splits of a string between a repeat and what follows it are ambiguous only where a byte can both continue the repeat and
+        # START what follows: the repeat's byte set against the FIRST set of the following items (for the last items of a repeated
+        # body also against the first set of the next iteration).  `"[^"\\]*(?:\\.[^"\\]*)*"` (the unrolled loop) has no such byte.
         items = list(sub)
         for i, (op, av) in enumerate(items):
             if op in (C.MAX_REPEAT, C.MIN_REPEAT) and av[1] is MAXREPEAT:
                 m1 = sub_mask(av[2])
-                if inside_unbounded is not None and m1 & inside_unbounded[0]:
-                    found.append("nested unbounded repeats over intersecting bytes %s" % show_mask(m1 & inside_unbounded[0]))
+                rest = items[i + 1:]
+                tail_nullable = all(nullable(o_, a_) for o_, a_ in rest)
+                if inside_unbounded is not None:
+                    nxt = first_of(rest) | (inside_unbounded[0] if tail_nullable else 0)
+                    if m1 & nxt and (tail_nullable or any(o_ in (C.MAX_REPEAT, C.MIN_REPEAT) for o_, _a in rest[:1]) or m1 & first_of(rest)):
+                        found.append("nested unbounded repeats over intersecting bytes %s" % show_mask(m1 & nxt))
+                if all(nullable(o_, a_) for o_, a_ in av[2]):
+                    found.append("an unbounded repeat of something that can be empty")
                 for j in range(i + 1, len(items)):
                     op2, av2 = items[j]
                     if op2 in (C.MAX_REPEAT, C.MIN_REPEAT) and av2[1] is MAXREPEAT:
-                        m2 = sub_mask(av2[2])
+                        m2 = first_of(av2[2])
                         if m1 & m2 and can_fail(items[j + 1:]):
                             found.append("adjacent unbounded repeats over intersecting bytes %s followed by a part that can fail"
                                          % show_mask(m1 & m2))
                     if not nullable(op2, av2):
                         break
-                rec(av[2], (m1,))
+                rec(av[2], (first_of(av[2]),))
             elif op in (C.MAX_REPEAT, C.MIN_REPEAT):
                 rec(av[2], inside_unbounded)
             elif op is C.SUBPATTERN:
